@@ -88,6 +88,17 @@ theorem reply_matches_frappy (s : St String) (h : Reachable request2reply true s
 theorem no_parking_frappy (s : St String) (h : Reachable request2reply true s) : NoParking request2reply s :=
   no_parking _ table_injective s h
 
+/-- **no spurious wake-up** (every table, with or without the request lock, every interleaving): in every reachable
+state, as long as no shutdown / loss of the connection has begun, no caller's event has been set without a reply and no
+entry is held for that - so no caller can leave `get_reply` with "connection closed before reply" on a healthy
+connection.  The model gives every entry a wake-up of its own (`rxSetEvent` delivers to the popped entry, `closeSet i` /
+`selfRelease i` name the entry); an implementation that shares an event between two entries of one thread is not a
+refinement of it, and the monitor (`judgeCaller`: `spuriousConnError`, judged at the state in which the caller
+returned) reports the run. -/
+theorem no_spurious_release {α : Type} [DecidableEq α] (tbl : List (α × α)) (locked : Bool) (s : St α)
+    (h : Reachable tbl locked s) : NoSpuriousRelease s :=
+  reachable_noSpur h
+
 /-! ### counter-traces (proved on the model with the repository's table) -/
 
 def rd (sp : String) : Req String := ⟨"read", some sp⟩
@@ -606,6 +617,15 @@ def traceGood : List (Label String) :=
 example : checkRun request2reply true traceGood
     (fun s => s.delivered.length == 3 && replyMatchesB request2reply s && noDoubleDeliveryB s
       && noParkingB request2reply s && s.pending.isEmpty && s.active.isEmpty) = true := by
+  decide +kernel
+
+/-- non-vacuity of `no_spurious_release`: the good trace (three requests, one parked and requeued) reaches a state that is not closing and in which
+three callers have been woken - all with a reply; after a `disconnect` has begun and released a queued request the
+premise is false and `released` is not empty -/
+example : checkRun request2reply true traceGood
+    (fun s => !s.closing && s.delivered.length == 3 && s.released.isEmpty && s.relHold.isEmpty) = true
+    ∧ checkRun request2reply true [.put (rd "m:p"), .closeBegin, .closeTxq, .closeSet 0]
+        (fun s => s.closing && s.released == [0]) = true := by
   decide +kernel
 
 end Frappy.Props.C11
